@@ -229,11 +229,15 @@ pub enum Op {
     CloneCond { src: usize, dst: usize },
     /// load another voice set into an existing engine: `condition.load_model(&vs); voices = vs`
     Reload { e: usize, voices: Vec<VoiceRef> },
+    /// a *failing* `condition.load_model`: the engine's own voices with a malformed spectrum option appended
+    /// (kind 0 `GAMMA=two`, 1 `LN_GAIN=yes`, 2 `ALPHA=0,55`). Afterwards every setting must be either what
+    /// it was before or the default a successful load would have installed - never anything else
+    ReloadBad { e: usize, kind: u8 },
     DropEngine { e: usize },
     /// take the engine apart and put it together again from its public parts:
     /// how 0: `Engine::new(e.voices.clone(), e.condition.clone())` (the condition was customised
     /// *before* `Engine::new`, as a front end that maps command-line options onto a Condition does);
-    /// how 1: struct literal `Engine { condition, voices }`; how 2: `e.condition = e.condition.clone()`;
+    /// how 1: the condition moved out with `mem::take` and handed to `Engine::new`; how 2: `e.condition = e.condition.clone()`;
     /// how 3: a new `VoiceSet` over deep copies of the voices (equal content, other allocations, nothing
     /// shared; the slot keeps those `Arc`s); how 4: a new `VoiceSet` over the harness's cached `Arc`s
     /// (equal voices share one allocation)
@@ -292,6 +296,7 @@ impl TOp {
             Op::CloneFrom { src, dst } => format!("t{} clonefrom e{} e{}", t, src, dst),
             Op::CloneCond { src, dst } => format!("t{} clonecond e{} e{}", t, src, dst),
             Op::Reload { e, voices } => format!("t{} reload e{} {}", t, e, vrefs(voices)),
+            Op::ReloadBad { e, kind } => format!("t{} reloadbad e{} {}", t, e, kind),
             Op::DropEngine { e } => format!("t{} dropengine e{}", t, e),
             Op::Rebuild { e, how } => format!("t{} rebuild e{} {}", t, e, how),
             Op::ReplaceInPlace { e, voices } => format!("t{} inplace e{} {}", t, e, vrefs(voices)),
@@ -337,6 +342,7 @@ impl TOp {
             "clonefrom" => Op::CloneFrom { src: slot(w.get(2)?, 'e')?, dst: slot(w.get(3)?, 'e')? },
             "clonecond" => Op::CloneCond { src: slot(w.get(2)?, 'e')?, dst: slot(w.get(3)?, 'e')? },
             "reload" => Op::Reload { e: slot(w.get(2)?, 'e')?, voices: parse_vrefs(w.get(3)?)? },
+            "reloadbad" => Op::ReloadBad { e: slot(w.get(2)?, 'e')?, kind: w.get(3)?.parse().ok()? },
             "dropengine" => Op::DropEngine { e: slot(w.get(2)?, 'e')? },
             "rebuild" => Op::Rebuild { e: slot(w.get(2)?, 'e')?, how: w.get(3)?.parse().ok()? },
             "inplace" => Op::ReplaceInPlace { e: slot(w.get(2)?, 'e')?, voices: parse_vrefs(w.get(3)?)? },
@@ -392,6 +398,7 @@ impl TOp {
             Op::CloneFrom { .. } => "clonefrom",
             Op::CloneCond { .. } => "clonecond",
             Op::Reload { .. } => "reload",
+            Op::ReloadBad { .. } => "reloadbad",
             Op::DropEngine { .. } => "dropengine",
             Op::Rebuild { .. } => "rebuild",
             Op::ReplaceInPlace { .. } => "inplace",
